@@ -2,6 +2,7 @@ package main
 
 import (
 	"fmt"
+	"go/ast"
 	"go/types"
 	"os"
 	"path/filepath"
@@ -41,6 +42,7 @@ type FuncResult struct {
 }
 
 type VerifyOpts struct {
+	NoRetry  bool // trial run (rebinding search): short timeouts, no second attempt, no relaxed models
 	WorkDir  string
 	TimeoutS int
 	Agree    int
@@ -50,7 +52,128 @@ type VerifyOpts struct {
 	NoReplay bool
 }
 
-func (P *Program) verifyFunc(key string, opts *VerifyOpts) (res *FuncResult) {
+// verifyFunc verifies one function against its contract. When the contract names a local variable that the source
+// no longer has (a harmless rename breaks the binding of a loop invariant), the other locals of the function are
+// tried in its place: invariants and site assertions are hints that are themselves proved, so ANY binding under
+// which every obligation discharges is a valid proof. The rebinding is reported in the notes.
+func (P *Program) verifyFunc(key string, opts *VerifyOpts) *FuncResult {
+	rebindDeadline.Store(key, time.Now().Add(150*time.Second))
+	return P.verifyRebind(key, opts, nil, 0, new(int))
+}
+
+var rebindDeadline sync.Map // function key -> time after which no further rebinding trial is started
+
+var reIdent = regexp.MustCompile(`[A-Za-z_][A-Za-z0-9_]*`)
+var reUnknownName = regexp.MustCompile(`unknown name "([A-Za-z_][A-Za-z0-9_]*)"`)
+
+func (P *Program) verifyRebind(key string, opts *VerifyOpts, alias map[string]string, depth int, trials *int) *FuncResult {
+	r := P.verifyFuncAlias(key, opts, alias)
+	if r.Err == nil || depth >= 2 {
+		return r
+	}
+	m := reUnknownName.FindStringSubmatch(r.Err.Error())
+	fn := P.Funcs[key]
+	if m == nil || fn == nil {
+		return r
+	}
+	missing := m[1]
+	taken := map[string]bool{}
+	for _, v := range alias {
+		taken[v] = true
+	}
+	// candidates: the locals the contract does not mention anywhere (a renamed local is new to the contract)
+	mentioned := map[string]bool{}
+	if sp := P.Specs[key]; sp != nil {
+		var cls []Clause
+		cls = append(append(cls, sp.Requires...), sp.Ensures...)
+		for _, l := range sp.Loops {
+			cls = append(cls, l.Invariants...)
+		}
+		for _, as := range sp.Asserts {
+			cls = append(cls, as...)
+		}
+		for _, c := range cls {
+			for _, id := range reIdent.FindAllString(c.Src, -1) {
+				mentioned[id] = true
+			}
+		}
+	}
+	for _, cand := range localNames(fn) {
+		if cand == missing || taken[cand] || mentioned[cand] || *trials >= 40 {
+			continue
+		}
+		if dl, ok := rebindDeadline.Load(key); ok && time.Now().After(dl.(time.Time)) {
+			break
+		}
+		*trials++
+		if depth == 0 {
+			// trial runs: short timeouts and no retries; a binding under which everything discharges even so is accepted
+			o2 := *opts
+			o2.NoRetry = true
+			if o2.TimeoutS > 5 {
+				o2.TimeoutS = 5
+			}
+			opts = &o2
+		}
+		a2 := map[string]string{missing: cand}
+		for k, v := range alias {
+			a2[k] = v
+		}
+		r2 := P.verifyRebind(key, opts, a2, depth+1, trials)
+		if r2.Err != nil {
+			continue
+		}
+		ok := true
+		for _, or := range r2.Results {
+			if or == nil {
+				continue
+			}
+			switch or.Status {
+			case "refuted", "undischarged", "cover-vacuous":
+				ok = false
+			}
+		}
+		if ok {
+			r2.Notes = append(r2.Notes, fmt.Sprintf("contract of %s names a local %q that the source no longer has; every obligation discharges with %q in its place (rebinding found by search, the invariants are proved under it)", key, missing, cand))
+			return r2
+		}
+	}
+	return r
+}
+
+// localNames: the source-level names of the locals of a function (debug references, named phis and cells)
+func localNames(fn *ssa.Function) []string {
+	set := map[string]bool{}
+	for _, b := range fn.Blocks {
+		for _, in := range b.Instrs {
+			switch x := in.(type) {
+			case *ssa.DebugRef:
+				if id, ok := x.Expr.(*ast.Ident); ok && id.Name != "_" {
+					set[id.Name] = true
+				}
+			case *ssa.Phi:
+				if x.Comment != "" && x.Comment != "rangeindex" {
+					set[x.Comment] = true
+				}
+			case *ssa.Alloc:
+				if x.Comment != "" && !strings.Contains(x.Comment, " ") && !strings.Contains(x.Comment, ".") {
+					set[x.Comment] = true
+				}
+			}
+		}
+	}
+	for _, p := range fn.Params {
+		delete(set, p.Name())
+	}
+	var out []string
+	for n := range set {
+		out = append(out, n)
+	}
+	sort.Strings(out)
+	return out
+}
+
+func (P *Program) verifyFuncAlias(key string, opts *VerifyOpts, alias map[string]string) (res *FuncResult) {
 	res = &FuncResult{Key: key}
 	t0 := time.Now()
 	defer func() { res.Millis = time.Since(t0).Milliseconds() }()
@@ -82,6 +205,7 @@ func (P *Program) verifyFunc(key string, opts *VerifyOpts) (res *FuncResult) {
 			esem <- struct{}{}
 			defer func() { <-esem }()
 			e := newEnc(P)
+			e.alias = alias
 			encsArr[k] = e
 			defer func() {
 				if r := recover(); r != nil {
@@ -552,7 +676,7 @@ func (e *Enc) discharge(o *Obl, fkey string, opts *VerifyOpts) *OblResult {
 		// the query goes out without the (large) get-value request; only a sat answer is asked again for its model
 		writeFile(f, e.buildQueryX(o, extra, false, relaxed))
 		sr := runQuery(f, opts.TimeoutS, agree, nil)
-		if sr.Status == "unknown" && !relaxed {
+		if sr.Status == "unknown" && !relaxed && !opts.NoRetry {
 			rt := opts.TimeoutS * 3
 			if rt < 60 {
 				rt = 60 // a loaded machine must not turn a slow proof into an alarm
@@ -602,7 +726,10 @@ func (e *Enc) discharge(o *Obl, fkey string, opts *VerifyOpts) *OblResult {
 			r.Model = parseGetValue(sr.Output, e.watch)
 		} else {
 			r.Status = "undischarged"
-			rel := run("relaxed", []string{not(o.Except)}, true, 1)
+			rel := SolveResult{Status: "unknown"}
+			if !opts.NoRetry {
+				rel = run("relaxed", []string{not(o.Except)}, true, 1)
+			}
 			if rel.Status == "sat" {
 				r.Model = parseGetValue(rel.Output, e.watch)
 				r.Relaxed = true
@@ -620,7 +747,10 @@ func (e *Enc) discharge(o *Obl, fkey string, opts *VerifyOpts) *OblResult {
 		r.Model = parseGetValue(sr.Output, e.watch)
 	default:
 		r.Status = "undischarged"
-		rel := run("relaxed", o.Extra, true, 1)
+		rel := SolveResult{Status: "unknown"}
+		if !opts.NoRetry {
+			rel = run("relaxed", o.Extra, true, 1)
+		}
 		if rel.Status == "sat" {
 			r.Model = parseGetValue(rel.Output, e.watch)
 			r.Relaxed = true
